@@ -54,7 +54,9 @@ def check(scn):
         yt = int(rng.randint(0, 2))
         yp = yt if rng.rand() < acc else 1 - yt
         np.random.seed(seed * 1000 + i)
-        det.update(yt, yp)
+        enc = {"int": int, "bool": bool, "npbool": np.bool_, "boolarr": (lambda v: np.array([bool(v)])),
+               "npint": np.int64, "float": float}[scn.get("labels", "int")]
+        det.update(enc(yt), enc(yp))
         np.random.seed(seed * 1000 + i)
         if state == "drift":
             conf = [[1, 1], [1, 1]]
@@ -134,6 +136,16 @@ def run(tier, seed, repo, focus=None):
             res.count(key=repr(scn), nontrivial=True, n=scn["n"], check="LFR vs specification")
             if msg:
                 res.violation("LFR: " + msg, REPLAY % dict(verif=VERIF, scn=scn), known)
+    # the same 0/1 labels in other encodings (booleans, numpy scalars, one-element arrays): same matrix, same decisions
+    for enc in ("bool", "npbool", "boolarr", "npint"):
+        scn = {"params": grids[1], "seed": seed, "n": 70 if quick else 140, "labels": enc}
+        try:
+            msg = check(scn)
+        except Exception as e:
+            msg = "%s: %s" % (type(e).__name__, e)
+        res.count(key=repr(scn), nontrivial=True, n=scn["n"], check="LFR vs specification (label encodings)")
+        if msg:
+            res.violation("LFR (%s labels): %s" % (enc, msg), REPLAY % dict(verif=VERIF, scn=scn), known)
     for s in range(50):
         msg = check_rates({"seed": seed + s})
         res.count(key=("rates", s), nontrivial=True, check="four rates")
